@@ -850,6 +850,43 @@ func (m *Machine) callStep(st Step, a *absEval, env *Env, binds map[string]*AVal
 					a.bufLen[role] = T
 					return true
 				}
+				// a concatenation of constants and the current character ("\\" + string(char)): the writes of its parts, in order
+				var parts []Term
+				var flat func(t Term)
+				flat = func(t Term) {
+					if b, isB := t.(TBin); isB && b.Op == token.ADD {
+						flat(b.X)
+						flat(b.Y)
+						return
+					}
+					parts = append(parts, t)
+				}
+				flat(call.Args[0])
+				if len(parts) > 1 {
+					var acts []Action
+					for _, pt := range parts {
+						if s, ok := isConstStringTerm(pt); ok {
+							if s != "" {
+								acts = append(acts, Action{Op: "W", Buf: role, What: s, Pos: pos})
+							}
+							continue
+						}
+						if cv, isCv := pt.(TConv); isCv && isStringType(cv.To) && m.isChar(cv.X) {
+							acts = append(acts, Action{Op: "W", Buf: role, What: "char", Pos: pos})
+							continue
+						}
+						if m.isCurRuneBytes(pt) {
+							acts = append(acts, Action{Op: "W", Buf: role, What: "char", Pos: pos})
+							continue
+						}
+						return false
+					}
+					if len(acts) > 0 {
+						env.Acts = append(env.Acts, acts...)
+						a.bufLen[role] = T
+					}
+					return true
+				}
 				return false
 			}
 			return false
